@@ -40,6 +40,8 @@ func (r *intsRanger) Range() (index, value reflect.Value, end bool) {
 	// and so it needs to be initialized as -1.
 	index = reflect.ValueOf(&r.i).Elem()
 	value = reflect.ValueOf(&r.val).Elem()
+	// hand out copies: a loop value stored in a template variable must not change when the ranger advances
+	index, value = reflect.ValueOf(r.i), reflect.ValueOf(r.val)
 	return
 }
 
